@@ -8,16 +8,31 @@ variable {F : Type} [PyF F]
 namespace Mov
 
 /-- `_get_clean_readings`: newest first, only `float`/`int` (bools count as ints) -/
-def cleanReadings (cs : List (Candle F)) (ind : String) (length index : Int) (includeLatest : Bool) :
-    List (Num F) :=
+def cleanScalars (cs : List (Candle F)) (ind : String) (length index : Int) (includeLatest : Bool) :
+    List (Scalar F) :=
   let toIndex := if includeLatest then index + 1 else index
   let start := if index - length < 0 then 0 else index - length
   let readings := (pySlice cs start toIndex).map fun c => readingByCandle c ind
   readings.reverse.filterMap fun v =>
     match v with
-    | .s (.num n) => some n
-    | .s (.bool b) => some (.int (if b then 1 else 0))
+    | .s (.num n) => some (.num n)
+    | .s (.bool b) => some (.bool b)
     | _ => none
+
+/-- numeric value of a clean reading (bools are ints) -/
+def scalarNum : Scalar F → Num F
+  | .num n => n
+  | .bool b => .int (if b then 1 else 0)
+  | .none => .int 0
+
+def cleanReadings (cs : List (Candle F)) (ind : String) (length index : Int) (includeLatest : Bool) :
+    List (Num F) :=
+  (cleanScalars cs ind length index includeLatest).map scalarNum
+
+/-- Python `max`/`min` over clean readings: the first extremal element, type preserved -/
+def pickScalar (better : Num F → Num F → Bool) : List (Scalar F) → Option (Scalar F)
+  | [] => none
+  | x :: xs => some (xs.foldl (fun best y => if better (scalarNum y) (scalarNum best) then y else best) x)
 
 def positive (cs : List (Candle F)) (index : Int) : Val F :=
   if !validIndex index cs.length then .bool false else
@@ -111,20 +126,22 @@ def meanRising (cs : List (Candle F)) (ind : String) (length index : Int) : PyM 
 def meanFalling (cs : List (Candle F)) (ind : String) (length index : Int) : PyM (Val F) :=
   meanCmp cs ind length index fun m l => m.gt l
 
+/-- `max(readings, default=False)`; `x if x is not False else None` -/
 def extreme (cs : List (Candle F)) (ind : String) (length index : Int)
-    (pick : List (Num F) → Option (Num F)) : PyM (Val F) :=
+    (better : Num F → Num F → Bool) : PyM (Val F) :=
   match absIndex index cs.length with
   | none => .ok (.bool false)
   | some i =>
     if length < 1 || cs.isEmpty then .ok (.bool false) else
-    match pick (cleanReadings cs ind length i true) with
-    | some v => .ok (.num v)
+    match pickScalar better (cleanScalars cs ind length i true) with
+    | some (.bool false) => .ok .none
+    | some v => .ok (.s v)
     | none => .ok .none
 
 def highest (cs : List (Candle F)) (ind : String) (length index : Int) : PyM (Val F) :=
-  extreme cs ind length index Num.maxList
+  extreme cs ind length index fun y best => y.gt best
 def lowest (cs : List (Candle F)) (ind : String) (length index : Int) : PyM (Val F) :=
-  extreme cs ind length index Num.minList
+  extreme cs ind length index fun y best => y.lt best
 
 /-- shared by highestbar / lowestbar: offset of the (first seen, i.e. most recent) extreme -/
 def extremeBar (cs : List (Candle F)) (ind : String) (length index : Int)
